@@ -174,6 +174,7 @@ class C12(vlib.Check):
             yield 'to_int long %s %d' % (hx(t), b)
 
     def gen(self, rng, tier):
+        yield 'shutdown'      # use of the library during program / thread shutdown (harness probe)
         # directed first: the values the repaired defect was about
         for ty, v in (('int', -2147483648), ('long', -9223372036854775808), ('llong', -9223372036854775808), ('short', -32768)):
             yield 'stream_int %s %d' % (ty, v)
@@ -184,6 +185,8 @@ class C12(vlib.Check):
         yield from self.print_cases(rng, tier)
 
     def nontrivial(self, case, impl):
+        if case.split()[0] == 'shutdown':
+            return True
         t = case.split()
         if t[0] == 'enum':
             return True
@@ -226,6 +229,8 @@ class C12(vlib.Check):
                 enumerated[k] = enumerated.get(k, 0) + int(t[4]) - int(t[3]) + 1
                 continue
             d[t[0]] = d.get(t[0], 0) + 1
+            if len(t) < 2:
+                continue
             types[t[1]] = types.get(t[1], 0) + 1
             if t[0] in ('from_int', 'to_int', 'strtol_ref'):
                 b = t[3]
